@@ -15,6 +15,10 @@ func init() {
 			{Name: "apireg", Pkg: "./pkg/regserver/apiregserver", Run: "^TestVerifC11API$", Drivers: []string{"apireg"}, Exports: []string{"regproc"}, TimeoutQ: 10 * time.Minute, TimeoutT: 40 * time.Minute},
 			{Name: "dnsreg", Pkg: "./pkg/regserver/dnsregserver", Run: "^TestVerifC11DNS$", Drivers: []string{"dnsreg"}, Exports: []string{"regproc", "responder"}, TimeoutQ: 10 * time.Minute, TimeoutT: 40 * time.Minute},
 			{Name: "app", Dir: "cmd/application", Pkg: ".", Run: "^TestVerifC11Handler$", Drivers: []string{"app"}, Exports: []string{"lib"}, TimeoutQ: 10 * time.Minute, TimeoutT: 60 * time.Minute},
+			{Name: "min", Pkg: "./pkg/transports/wrapping/min", Run: "^TestVerifC11Params$", Drivers: []string{"min"}, TimeoutQ: 10 * time.Minute, TimeoutT: 40 * time.Minute},
+			{Name: "obfs4", Pkg: "./pkg/transports/wrapping/obfs4", Run: "^TestVerifC11Params$", Drivers: []string{"obfs4"}, TimeoutQ: 10 * time.Minute, TimeoutT: 40 * time.Minute},
+			{Name: "prefix", Pkg: "./pkg/transports/wrapping/prefix", Run: "^TestVerifC11Params$", Drivers: []string{"prefix"}, TimeoutQ: 10 * time.Minute, TimeoutT: 40 * time.Minute},
+			{Name: "cdtls", Pkg: "./pkg/transports/connecting/dtls", Run: "^TestVerifC11Params$", Drivers: []string{"cdtls"}, Exports: []string{"dnat"}, Netns: true, TimeoutQ: 10 * time.Minute, TimeoutT: 40 * time.Minute},
 		},
 	})
 }
